@@ -10,6 +10,15 @@
 #include <unistd.h>
 #include <vector>
 
+// Decoy relational operators for the element types of the drivers.  The library must order elements with the comparator it was given and nothing else; an element
+// type without operator< would turn a change that bypasses the comparator (a < b, std::min, std::priority_queue<T>, pair comparison) into a compile error of the
+// driver, which is an internal error of the check, not a verdict.  The decoys compile and order by the REVERSE of the key, so such a change shows up as a wrong result.
+#define VF_DECOY_ORDER(T, field) \
+    inline bool operator<(const T& a, const T& b) { return b.field < a.field; } \
+    inline bool operator>(const T& a, const T& b) { return a.field < b.field; } \
+    inline bool operator<=(const T& a, const T& b) { return !(a.field < b.field); } \
+    inline bool operator>=(const T& a, const T& b) { return !(b.field < a.field); }
+
 #if defined(VERIF_COVERAGE)
 extern "C" void __gcov_dump(void);
 #endif
